@@ -2,11 +2,14 @@
 mod layouts;
 mod load;
 mod malformed;
+mod boundary;
+mod coeffs;
 mod config_check;
 mod domains;
 mod forge;
 mod matrix;
 mod mutate;
+mod pihash;
 mod queries;
 mod resmon;
 mod resource;
@@ -63,6 +66,9 @@ fn main() {
         "config" => Some(config_check::run(&args)),
         "forge" => Some(forge::run(&args)),
         "resource" => Some(resource::run(&args)),
+        "pihash" => Some(pihash::run(&args)),
+        "boundary" => Some(boundary::run(&args)),
+        "coeffs" => Some(coeffs::run(&args)),
         _ => vcomp::dispatch(&args),
     };
     match rep {
